@@ -497,9 +497,18 @@ def r8_newest_file_over_all_directories(repo=None):
     return r
 
 
+def r9_refusal_is_not_a_failure(repo=None):
+    """'... is rejected and the writer remains usable for later time periods': the sticky failure flag may be set only where an
+    HDF5 / file-system call was seen to fail (C10.R5) - set on a refusal it blocks every later write and makes close() remove the
+    open file."""
+    from . import c10
+    return c10.r5_failure_flag_means_io_failure(repo, rid="C11.R9")
+
+
 def rules(repo=None):
     return [lambda: r8_newest_file_over_all_directories(repo), lambda: r7_usable_after_a_refusal(repo), lambda: r1_compare_all(repo), lambda: r2_refused_session_no_effect(repo), lambda: r3_never_replace(repo),
-            lambda: r4_reader_all_directories(repo), lambda: r5_bounds_merge(repo), lambda: r6_existence_test_in_current_subdir(repo)]
+            lambda: r4_reader_all_directories(repo), lambda: r5_bounds_merge(repo), lambda: r6_existence_test_in_current_subdir(repo),
+            lambda: r9_refusal_is_not_a_failure(repo)]
 
 
 EXPLANATION = (
@@ -514,7 +523,10 @@ EXPLANATION = (
     'usable after a refusal: `file_exists = 1` is unsatisfiable with the file handle zero, or the create function never '
     'returns an error after storing the remembered name without an open file (CFG reach + truth table). R8: in '
     'get_last_write the early `return (mtime, path)` sits in two nested loops with the candidate files (newest first) '
-    'outside and the top-level directories inside. Does NOT decide union/bounds arithmetic across sessions.')
+    'outside and the top-level directories inside. Does NOT decide union/bounds arithmetic across sessions. R9 (= '
+    'C10.R5): every store of a non-zero value into has_failure is controlled by a test of an I/O status (result of an '
+    'HDF5 / file-system call, a variable assigned from one, a library function whose non-zero returns are so controlled, '
+    'or a parameter receiving such a value at every call site): a refusal never sets the sticky flag.')
 TECHNIQUE = ("clang JSON AST + Python ast; attribute comparison table; effect-free prefix by effect summaries; dominance of the existence test; CFG must-pass in the reader's directory loops")
 ASSUMPTIONS = ["H5F_ACC_EXCL fails on an existing file", "the same file period is never recorded in two directories (format rule)"]
 FILES = [C_LIB, C_EXT, "python/digital_rf/digital_rf_hdf5.py"]
